@@ -435,6 +435,30 @@ def fam_errdefaults(tier: str, rng: random.Random) -> Iterator[dict]:
             yield q
 
 
+def fam_errf_wrapped(tier: str, rng: random.Random) -> Iterator[dict]:
+    """C09: the error factory passed through a functools.wraps decorator: it is still called with the values it names."""
+    for p in fam_err(tier, rng):
+        if any(c["err"] in ("factory", "badfactory") for c in p["con"]) and not any(c["lam"] for c in p["con"]):
+            q = json_copy(p)
+            q["errf_wrapped"] = True
+            q["tag"] = p["tag"] + "-errf-wrapped"
+            yield q
+
+
+def fam_err_inherited(tier: str, rng: random.Random) -> Iterator[dict]:
+    """C09: preconditions inherited through one or two levels whose errors are exception INSTANCES / factories: the
+    very object given (the last object the factory returned) is raised also when an override is called."""
+    for kind in ("method", "static", "setter"):
+        for shape in ([[1], [2]], [[1], [2], [3]], [[1, 2], [3]]):
+            n = _shape_ncons(shape)
+            for forms in (["inst"], ["factory"], ["inst", "factory"], ["class", "inst"]):
+                for isasync in (False, True):
+                    p = member_prog(kind, False, shape, 0, 0, [False] * n, [], forms, False, isasync, ncalls=2,
+                                    tag="err-inherited")
+                    if p is not None:
+                        yield p
+
+
 def fam_reent_cap(tier: str, rng: random.Random) -> Iterator[dict]:
     """C10: snapshot captures (plain and coroutine) that call the function they belong to, directly or through another
     contracted function: own re-entry while the contracts are evaluated, skipped exactly once."""
@@ -522,7 +546,7 @@ def fam_order(tier: str, rng: random.Random) -> Iterator[dict]:
                         for isasync in (False, True):
                             for lam in ((False, True) if not isasync else (False,)):
                                 p = member_prog(kind, kind == "method", shape, npost, 1 if npost else 0, pre_bits,
-                                                post_bits, ["default", "inst", "factory"], lam, isasync, tag="order")
+                                                post_bits, ["default", "inst", "factory", "class"], lam, isasync, tag="order")
                                 if p is not None:
                                     yield p
 
@@ -973,15 +997,21 @@ def fam_reent_async(tier: str, rng: random.Random) -> Iterator[dict]:
     for s2 in bodies:
         for s3 in ([], [Op("call", 4, SELF, 1)]):
             for async3 in (True, False):
-                for with_pre in (False, True):
+                for with_pre, with_post in ((False, False), (True, False), (False, True)):
                     cons = [Con("inv", "default", False, [False, True, True])]
                     pre = []
+                    post3 = []
                     if with_pre:
                         cons.append(Con("pre", "default", False, T3, rv="corofn", script=[Op("call", 3, SELF, 1)]))
                         pre = [[2]]
+                    if with_post:
+                        # the awaited method has a postcondition of its own (violated for argument 1 in half of the programs)
+                        cons.append(Con("post", "default", False, [True, bool(len(s2) % 2), True]))
+                        post3 = [len(cons)]
                     fns = [Fn("init", 1, False, ["init"], out=[RetV(0)] * 3, setst=1),
                            Fn("method", 1, True, ["inv"] + (["chk"] if pre else []), pre, script=s2),
-                           Fn("method", 1, async3, ["inv"], script=s3 if async3 else []),
+                           Fn("method", 1, async3, ["inv"] + (["chk"] if post3 else []), [], [], post3,
+                              script=s3 if async3 else []),
                            Fn("method", 1, True, ["inv"])]
                     obj = [{"cls": 1, "st0": 0}, {"cls": 1, "st0": 0}]
                     drv = [Op("call", 1, 2, 1), Op("call", 1, 1, 1), Op("call", 2, 1, 2), Op("call", 2, 1, 1), Op("call", 3, 1, 1)]
